@@ -1,6 +1,281 @@
 package c09
 
-import "verif/harness/internal/core"
+import (
+	"fmt"
+	"runtime"
+	"strconv"
+	"strings"
+	"sync"
+
+	"verif/harness/internal/core"
+)
+
+// chooser generates a schedule while it runs: it looks at the running case (which requests
+// are parked inside a backend, whether a configuration is loaded, which backends are down) and
+// picks a step that is possible now, so that generated schedules are long and valid.  The
+// chosen steps are recorded; the protocol line is their concatenation and replays to the
+// same answer because every step waits for the implementation to come to rest.
+type chooser struct {
+	rng    *core.Rand
+	max    int
+	timed  bool // windows of a few ticks and T steps
+	wild   int  // 0 = always possible steps; n>0: one step in n is not checked for possibility
+	n      int
+	ticks  int
+	loaded bool
+}
+
+func (c *chooser) keys(K int) []int {
+	r := c.rng
+	n := 1 + r.Intn(K)
+	if r.Chance(1, 6) {
+		n = 1 + r.Intn(K+1)
+	}
+	var ks []int
+	if r.Chance(3, 4) {
+		// a rotation of distinct keys
+		start := r.Intn(K)
+		for i := 0; i < n && i < K; i++ {
+			ks = append(ks, (start+i)%K)
+		}
+	} else {
+		for i := 0; i < n; i++ {
+			ks = append(ks, r.Intn(K)) // duplicates allowed
+		}
+	}
+	return ks
+}
+
+func keysText(ks []int) string {
+	p := make([]string, len(ks))
+	for i, k := range ks {
+		p[i] = strconv.Itoa(k)
+	}
+	return strings.Join(p, ".")
+}
+
+func (c *chooser) loadStep(K int) string {
+	r := c.rng
+	p := 1
+	if r.Chance(1, 8) {
+		p = 0
+	}
+	d := longD
+	switch {
+	case c.timed:
+		d = 1 + r.Intn(3)
+	case r.Chance(1, 8):
+		d = 0
+	}
+	m := r.Intn(4)
+	if r.Chance(1, 10) {
+		m = 4 + r.Intn(3)
+	}
+	rt := 0
+	if r.Chance(2, 3) {
+		rt = 1 + r.Intn(3)
+	}
+	q := 0
+	if r.Chance(1, 4) {
+		q = 1 + r.Intn(2)
+	}
+	s := 0
+	if r.Chance(1, 3) {
+		s = 1 + r.Intn(2)
+	}
+	return fmt.Sprintf("L:%s:%d:%d:%d:%d:%d:%d", keysText(c.keys(K)), p, d, m, rt, q, s)
+}
+
+var answerPick = []string{"ok", "ok", "e5", "e5", "rst", "rst", "rst", "rst", "hup", "pan", "her"}
+
+func (c *chooser) next(k *kase) (step, bool) {
+	if c.n >= c.max {
+		return step{}, false
+	}
+	c.n++
+	r := c.rng
+	text := ""
+	var parked []int
+	for _, q := range k.reqs {
+		if q.parked {
+			parked = append(parked, q.id)
+		}
+	}
+	live := k.cur != nil && !k.cur.canceled
+	switch {
+	case c.wild > 0 && r.Chance(1, c.wild):
+		// not checked for possibility: may make the whole line bad-op
+		switch r.Intn(5) {
+		case 0:
+			text = fmt.Sprintf("O:%d:%s", r.Intn(len(k.reqs)+2), r.Pick(answerPick))
+		case 1:
+			text = fmt.Sprintf("A:%d", r.Intn(len(k.reqs)+2))
+		case 2:
+			text = "N:G"
+		case 3:
+			text = fmt.Sprintf("D:%d", r.Intn(k.K))
+		default:
+			text = fmt.Sprintf("U:%d", r.Intn(k.K))
+		}
+	case !c.loaded:
+		text = c.loadStep(k.K)
+		c.loaded = true
+	default:
+		for text == "" {
+			switch x := r.Intn(100); {
+			case x < 30:
+				if live && len(parked) < 5 {
+					text = "N:" + r.Pick([]string{"G", "G", "P"})
+				}
+			case x < 58:
+				if len(parked) > 0 {
+					text = fmt.Sprintf("O:%d:%s", parked[r.Intn(len(parked))], r.Pick(answerPick))
+				}
+			case x < 64:
+				if len(parked) > 0 {
+					text = fmt.Sprintf("A:%d", parked[r.Intn(len(parked))])
+				}
+			case x < 72:
+				key := r.Intn(k.K)
+				if k.backends[key].srv != nil {
+					text = fmt.Sprintf("D:%d", key)
+				} else {
+					text = fmt.Sprintf("U:%d", key)
+				}
+			case x < 82:
+				text = c.loadStep(k.K)
+			case x < 85:
+				text = "B:" + keysText(c.keys(k.K))
+			case x < 87:
+				if live {
+					text = "C"
+				}
+			default:
+				if (c.timed || x < 89) && c.ticks < 90 {
+					n := 1 + r.Intn(2)
+					if !c.timed {
+						n = 1 + r.Intn(5)
+					}
+					c.ticks += n
+					text = fmt.Sprintf("T:%d", n)
+				}
+			}
+		}
+	}
+	st, ok := parseStep(text, k.K)
+	if !ok {
+		panic("c09 generator produced a malformed step: " + text)
+	}
+	st.text = text
+	return st, true
+}
+
+type genCase struct {
+	line string
+	out  core.Outcome
+}
+
+// mutate damages a valid line (the malformed stream).
+func mutate(r *core.Rand, line string) string {
+	b := []byte(line)
+	switch r.Intn(6) {
+	case 0: // drop a byte
+		i := r.Intn(len(b))
+		b = append(b[:i], b[i+1:]...)
+	case 1: // replace a byte
+		b[r.Intn(len(b))] = "LBCNOADUT:;.0179x "[r.Intn(18)]
+	case 2: // duplicate a separator
+		i := r.Intn(len(b))
+		b = append(b[:i], append([]byte{";:. "[r.Intn(4)]}, b[i:]...)...)
+	case 3: // truncate
+		b = b[:r.Intn(len(b))]
+	case 4: // unknown op
+		return "sched 2 L:0:1:100:1:0:0:0;X:1"
+	default: // numbers out of range / leading zeros
+		return r.Pick([]string{"sched 7 L:0:1:100:1:0:0:0", "sched 2 L:2:1:100:1:0:0:0", "sched 2 L:0:1:100:1:9:0:0",
+			"sched 2 L:00:1:100:1:0:0:0", "sched 2 L:0:2:100:1:0:0:0", "sched 2 T:51", "sched 2 T:50;T:50", "sched 0 C",
+			"sched 2", "sched", "sched 2 L:0:1:100:1:0:0:3", "sched 2 L::1:100:1:0:0:0", "frob 1 2", "sched 2 T:0"})
+	}
+	if strings.ContainsAny(string(b), "\n\r") {
+		return line
+	}
+	return strings.TrimSpace(string(b))
+}
 
 func (p *prop) Generate(rng *core.Rand, tier string, emit func(string)) {
+	if err := p.init(); err != nil {
+		emit("sched 1 L:0:1:100:1:0:0:0") // reports harness-infra
+		return
+	}
+	nPlain, nTimed, nBad, nStress := 2400, 160, 200, 0
+	maxLen := 26
+	switch tier {
+	case "thorough":
+		nPlain, nTimed, nBad, nStress = 60000, 3000, 3000, 0
+		maxLen = 40
+	case "search":
+		nPlain, nTimed, nBad, nStress = 8000, 500, 0, 0
+		maxLen = 32
+	}
+	emit("static defer")
+	type job struct {
+		idx   int
+		rng   *core.Rand
+		timed bool
+		wild  int
+	}
+	var jobs []job
+	for i := 0; i < nPlain+nTimed; i++ {
+		j := job{idx: i, rng: rng.Fork(), timed: i%((nPlain+nTimed)/nTimed) == 0}
+		if !j.timed && i%23 == 0 {
+			j.wild = 12
+		}
+		jobs = append(jobs, j)
+	}
+	results := make([]genCase, len(jobs))
+	workers := runtime.NumCPU()
+	if workers > 16 {
+		workers = 16
+	}
+	if workers < 2 {
+		workers = 2
+	}
+	var wg sync.WaitGroup
+	ch := make(chan job)
+	for w := 0; w < workers; w++ {
+		wg.Add(1)
+		go func() {
+			defer wg.Done()
+			for j := range ch {
+				r := j.rng
+				K := 1 + r.Intn(3)
+				if r.Chance(1, 10) {
+					K = 4 + r.Intn(2)
+				}
+				c := &chooser{rng: r, max: 3 + r.Intn(maxLen), timed: j.timed, wild: j.wild}
+				if j.timed {
+					c.max = 4 + r.Intn(14)
+				}
+				out, steps := p.execSched(K, c, 0)
+				results[j.idx] = genCase{line: schedLine(K, steps), out: out}
+			}
+		}()
+	}
+	for _, j := range jobs {
+		ch <- j
+	}
+	close(ch)
+	wg.Wait()
+	mr := rng.Fork()
+	for i, g := range results {
+		p.cache.Store(g.line, g.out)
+		emit(g.line)
+		if nBad > 0 && i%(len(results)/nBad+1) == 0 {
+			emit(mutate(mr, g.line))
+		}
+	}
+	sr := rng.Fork()
+	for i := 0; i < nStress; i++ {
+		emit(fmt.Sprintf("stress %d %d", 4+sr.Intn(28), sr.Intn(9000)))
+	}
 }
